@@ -20,4 +20,4 @@ NOT_APPLICABLE = {
 
 # Properties whose checks are finished and claimed in MANIFEST.json (others stay under
 # not_applicable as "not built yet" until their builder reports done and the check was run here).
-CLAIMED = ["C09", "C10", "C39", "C40", "C41", "C42", "C01", "C02", "C03", "C04", "C05", "C06", "C07", "C08", "C43", "C44", "C45", "C11", "C12", "C13", "C14", "C15", "C17", "C18", "C19", "C20", "C21", "C24", "C25", "C26", "C27", "C28", "C29", "C30", "C31", "C32", "C33", "C34", "C35", "C36", "C37", "C38"]
+CLAIMED = ["C22", "C23", "C09", "C10", "C39", "C40", "C41", "C42", "C01", "C02", "C03", "C04", "C05", "C06", "C07", "C08", "C43", "C44", "C45", "C11", "C12", "C13", "C14", "C15", "C17", "C18", "C19", "C20", "C21", "C24", "C25", "C26", "C27", "C28", "C29", "C30", "C31", "C32", "C33", "C34", "C35", "C36", "C37", "C38"]
